@@ -144,7 +144,8 @@ def run(ctx):
                         good = good and fin[0]['args'][1] == sym('position')
                     good = good and n[0] == 'ctor' and n[2] == node
                     if good:
-                        vals = [show(v) for f, v in n[3]]
+                        # the id of a builder: its `id` field or the public `id()` accessor
+                        vals = [re.sub(r'^id\((.*)\)$', r'\1.id', show(v)) for f, v in n[3]]
                         names = [f for f, v in n[3]]
                         if nseq == 1:
                             good = vals == seqs
